@@ -10,7 +10,8 @@ Import ListNotations.
 From TI Require Import lib.Sched model.Caches.
 
 Section Memo.
-  Variable bv : nat -> nat -> Z.   (* what the n-th body execution returns for key k: arbitrary *)
+  (* what the n-th body execution does for key k: returns a value or raises ([None]); arbitrary *)
+  Variable bv : nat -> nat -> option Z.
 
   Definition busy (s : mstate) (t : nat) : Prop := m_pc (m_th s t) <> PIdle.
 
@@ -121,8 +122,31 @@ Section Memo.
           [destruct (Nat.eq_dec t1 t) as [->|N]; [rewrite upd_same in P1|rewrite upd_other in P1 by auto]; auto
           |destruct (Nat.eq_dec t2 t) as [->|N]; [rewrite upd_same in P2|rewrite upd_other in P2 by auto]; auto].
     - (* PBody: the body runs *)
-      inversion H; subst s'; clear H.
       assert (B : busy s t) by (unfold busy; congruence).
+      destruct (bv (m_total s) k) as [bvv|] eqn:BV.
+      2:{ (* ... and raises: nothing is stored, the thread goes on to release the lock *)
+        inversion H; subst s'; clear H.
+        assert (NP : forall k', ~ pending s k').
+        { intros k' P. destruct (pending_is_busy s t k' I B P) as [v P']. congruence. }
+        constructor; simpl.
+        + intros u Bu. apply (i_busy_owner s I).
+          destruct (Nat.eq_dec u t) as [->|N]; auto.
+          unfold busy in *. simpl in Bu. now rewrite upd_other in Bu by auto.
+        + intro A. specialize (A t). rewrite upd_same in A. discriminate.
+        + intros u k' P. destruct (Nat.eq_dec u t) as [->|N].
+          * rewrite upd_same in P. discriminate.
+          * rewrite upd_other in P by auto. rewrite (others_idle s t u I B N) in P. discriminate.
+        + intros k' C NP'. apply (i_calls0 s I); auto.
+        + apply (i_calls1 s I).
+        + intros u k' v P. destruct (Nat.eq_dec u t) as [->|N].
+          * rewrite upd_same in P. discriminate.
+          * rewrite upd_other in P by auto. rewrite (others_idle s t u I B N) in P. discriminate.
+        + intros u ep k' v P. apply (i_rets_epoch s I u).
+          destruct (Nat.eq_dec u t) as [->|N]; [rewrite upd_same in P|rewrite upd_other in P by auto]; auto.
+        + intros t1 t2 ep k' v1 v2 P1 P2. apply (i_rets_agree s I t1 t2 ep k');
+            [destruct (Nat.eq_dec t1 t) as [->|N]; [rewrite upd_same in P1|rewrite upd_other in P1 by auto]; auto
+            |destruct (Nat.eq_dec t2 t) as [->|N]; [rewrite upd_same in P2|rewrite upd_other in P2 by auto]; auto]. }
+      inversion H; subst s'; clear H.
       assert (NP : forall k', ~ pending s k').
       { intros k' P. destruct (pending_is_busy s t k' I B P) as [v P']. congruence. }
       assert (C0 : m_calls s k = 0).
@@ -136,7 +160,7 @@ Section Memo.
         * rewrite upd_same in P. discriminate.
         * rewrite upd_other in P by auto. rewrite (others_idle s t u I B N) in P. discriminate.
       + intros k' C NP'. destruct (Nat.eq_dec k' k) as [->|N].
-        * exfalso. apply NP'. exists t, (bv (m_total s) k). simpl. now rewrite upd_same.
+        * exfalso. apply NP'. exists t, bvv. simpl. now rewrite upd_same.
         * rewrite upd_other by auto. apply (i_calls0 s I); auto.
       + intro k'. destruct (Nat.eq_dec k' k) as [->|N].
         * rewrite upd_same. lia.
@@ -270,6 +294,17 @@ Section Memo.
     reachable (mstep bv) (minit prog) s -> m_calls s k <= 1.
   Proof. intros R. apply i_calls1. now apply (minv_reachable prog). Qed.
 
+  (** a body that raises stores nothing: the step of an aborted body execution leaves
+      the cache and the per-key counters of completed executions exactly as they were
+      (and the thread then only releases the lock) *)
+  Lemma memo_raise_stores_nothing_lemma s t k s' :
+    m_pc (m_th s t) = PBody k -> bv (m_total s) k = None -> mstep bv s t = Some s' ->
+    m_cache s' = m_cache s /\ m_calls s' = m_calls s /\ m_pc (m_th s' t) = PRelease None.
+  Proof.
+    intros PC BV H. unfold mstep in H. rewrite PC, BV in H. inversion H; subst s'; simpl.
+    now rewrite upd_same.
+  Qed.
+
   (** all calls with one argument tuple that return in one epoch return the same value *)
   Lemma memo_same_value_lemma prog s t1 t2 ep k v1 v2 :
     reachable (mstep bv) (minit prog) s ->
@@ -283,7 +318,7 @@ End Memo.
     thread returns its value *)
 Example memo_three_threads :
   let prog := fun t => if Nat.ltb t 3 then [MCall 7] else [] in
-  let bv := fun n _ => Z.of_nat (100 + n) in
+  let bv := fun n _ => Some (Z.of_nat (100 + n)) in
   forall sch, In sch [ [0;1;2;0;1;2;0;1;2;0;1;2;0;1;2;0;1;2;1;1;1;1;1;2;2;2;2;2];
                        [2;2;1;0;2;0;1;2;2;1;1;1;1;1;0;0;0;0;0];
                        [0;0;0;1;0;0;1;1;1;1;2;2;2;2;2] ] ->
@@ -293,4 +328,20 @@ Example memo_three_threads :
 Proof.
   intros prog bv sch H. simpl in H.
   destruct H as [<-|[<-|[<-|[]]]]; vm_compute; auto.
+Qed.
+
+(** ... and with a body that raises on its first execution: the first caller gets the
+    exception (no return value recorded), nothing is stored, the next caller runs the
+    body again — ONE completed execution, and both later callers get its value *)
+Example memo_aborted_body :
+  let prog := fun t => if Nat.ltb t 3 then [MCall 7] else [] in
+  let bv := fun n _ => if Nat.eqb n 0 then None else Some (Z.of_nat (100 + n)) in
+  forall sch, In sch [ [0;1;2;0;1;2;0;1;2;0;1;2;0;1;2;0;1;2;1;1;1;1;1;2;2;2;2;2];
+                       [0;0;0;0;1;1;1;1;1;2;2;2;2] ] ->
+    let s := run_sched (mstep bv) (minit prog) sch in
+    m_calls s 7 = 1 /\ m_total s = 2
+    /\ map (fun t => m_rets (m_th s t)) [0; 1; 2] = [[]; [(0, 7, 101%Z)]; [(0, 7, 101%Z)]].
+Proof.
+  intros prog bv sch H. simpl in H.
+  destruct H as [<-|[<-|[]]]; vm_compute; auto.
 Qed.
